@@ -51,7 +51,7 @@ def gen_plan(rng, tier, index):
     else:
         plan['family'] = gen_family(rng, n_roots=(1, 1), n_cond=(4, 7), n_rdm=(3, 5))
         plan['pre_ops'] = []
-        plan['result'] = {'routine': rng.pick(['eval_fixed', 'eval_bootstrap_rdm', 'eval_bootstrap', 'crossval']),
+        plan['result'] = {'routine': rng.pick(['eval_fixed', 'eval_bootstrap_rdm', 'eval_bootstrap', 'crossval', 'bootstrap_crossval', 'eval_dual_bootstrap', 'eval_bootstrap_pattern']),
                           'models': [rng.pick(['fixed', 'weighted', 'select', 'interpolate']) for _ in range(rng.randint(1, 12 if rng.chance(0.15) else 3))],
                           'method': rng.pick(['cosine', 'corr', 'spearman']), 'N': rng.randint(3, 6)}
     fops = []
@@ -307,6 +307,12 @@ def _make_result(plan, ctx, data):
         return inf.eval_bootstrap_rdm(models, data, theta=theta, method=method, N=rp['N'])
     if routine == 'eval_bootstrap':
         return inf.eval_bootstrap(models, data, theta=theta, method=method, N=rp['N'])
+    if routine == 'eval_bootstrap_pattern':
+        return inf.eval_bootstrap_pattern(models, data, theta=theta, method=method, N=rp['N'])
+    if routine == 'bootstrap_crossval':
+        return inf.bootstrap_crossval(models, data, method=method, k_pattern=1, k_rdm=2, N=rp['N'], n_cv=2)
+    if routine == 'eval_dual_bootstrap':
+        return inf.eval_dual_bootstrap(models, data, method=method, k_pattern=1, k_rdm=1, N=max(rp['N'], 4))
     tr, te, ce = inf.sets_k_fold(data, k_rdm=2, k_pattern=1, random=False)
     return inf.crossval(models, data, tr, te, ceil_set=ce, method=method)
 
